@@ -1,0 +1,14 @@
+//go:build verif
+
+// Contracts for the verification machinery in /verif (comment-only file; compiled only with -tags verif).
+package assertiontree
+
+//@ -- Ownership contracts (C17, C16); see assertion/function/preprocess/zz_contracts_verif.go.
+
+//@ func blocksAndPreprocessingFromCFG
+//@ prop C17 C16
+//@ ghost owns graph
+
+//@ func (*RootAssertionNode).collectAccessedFieldPaths
+//@ prop C17
+//@ ghost owns seen
